@@ -73,7 +73,22 @@ def I8():
     return dict(name="I8", comps=[dict(name="a", default=50), dict(name="b", setup=False, default=0), dict(name="c", setup=False)], characs=[dict(name="alive", components="a,b,c", default=100)], pars=_rate(), transitions=_cyc(["a", "b", "c"]))
 
 
-STRUCTS = dict(I1=I1, I2=I2, I3=I3, I4=I4, I6=I6, I7=I7, I8=I8)
+def I6b():
+    """a junction that has its own databook value AND is a member of a characteristic used for initialisation"""
+    d = I6()
+    d["name"] = "I6b"
+    d["comps"] = [dict(name="a", default=50), dict(name="j", junction="y", setup=True, default=20), dict(name="b", setup=False), dict(name="c", setup=False)]
+    d["characs"] = [dict(name="alive", components="a,j,b,c", default=100)]
+    d["transitions"] = {("a", "j"): "r", ("j", "b"): "p", ("b", "c"): "r", ("c", "a"): "r"}
+    return d
+
+
+def I9():
+    """nothing at all is entered for initialisation (every compartment starts empty and fills from the source)"""
+    return dict(name="I9", comps=[dict(name="src", source="y"), dict(name="a", setup=False), dict(name="b", setup=False)], characs=[dict(name="alive", components="a,b", setup=False)], pars=_rate() + [dict(name="birth", format="number", default=10)], transitions={("src", "a"): "birth", ("a", "b"): "r", ("b", "a"): "r"})
+
+
+STRUCTS = dict(I1=I1, I2=I2, I3=I3, I4=I4, I6=I6, I6b=I6b, I7=I7, I8=I8, I9=I9)
 _P = {}
 
 
@@ -124,6 +139,7 @@ def init_body(name, y_factors):
             return [c.name for c in pop.charac_lookup[q].get_included_comps()]
 
         for cname, v in stocks.items():
+            env.claim("stored_stock_is_a_number|%s" % cname, env.true(not (isinstance(v, (float, np.floating)) and v != v)), key="stock_nonneg")
             env.claim("stored_stock_nonneg|%s" % cname, env.ge(v, 0.0, 0), key="stock_nonneg")
             if cname in F.comps.index and not isinstance(F.comps.at[cname, "databook page"], str) and F.comps.at[cname, "default value"] == 0:
                 # no databook entry and a framework default of 0: the compartment starts empty
